@@ -3,19 +3,19 @@
 import json
 claimed = {
  "C01": ("sequential TTL model under the virtual clock: seeded call sequences x clock jumps (to e-1/e/e+1), janitor ticks between calls", "3.1, 4 C01"),
- "C02": ("seeded scheduler over 2-4 tasks + janitor; histories checked with porcupine against the frozen-clock TTL-map model", "3.2, 4 C02"),
+ "C02": ("seeded scheduler over 2-4 tasks + janitor; histories checked with porcupine against the TTL-map model (frozen clock, or a clock that ticks inside the phase with the timed model of DESIGN 10)", "3.2, 4 C02"),
  "C03": ("seeded scheduler over 2-4 tasks; Map histories across grow/shrink/Clear checked with porcupine against map[string]interface{}", "3.2, 4 C03"),
  "C04": ("seeded scheduler; MapOf histories for int/string/struct/any keys, default and adversarial hashers, checked with porcupine", "3.2, 4 C04"),
  "C05": ("seeded scheduler; racers and increment chains with direct exactly-once / one-winner / no-lost-update assertions", "4 C05"),
  "C06": ("evicted-callback ledger (rules R1-R7) over sequential runs with exact Count deltas and concurrent runs with overlapping removers", "3.4, 4 C06"),
  "C07": ("traversal oracle: sequential equality with the model, concurrent per-key rules and pseudo-loads in the porcupine history", "3.3, 4 C07"),
- "C08": ("Size/Count compared with Range visits and keys found at every quiescent point of concurrent and sequential runs", "3.5, 4 C08"),
- "C09": ("exact expiry instants under the virtual clock for boundary and random int64 TTLs and all constructor variants", "4 C09"),
+ "C08": ("Size/Count compared with Range visits and keys found at every quiescent point of concurrent and sequential runs; nothing expired survives a completed DeleteExpired, nothing stored before survives a completed Clear", "3.5, 4 C08"),
+ "C09": ("exact expiry instants under the virtual clock for boundary and random int64 TTLs and all constructor variants; concurrent phases in which the default TTL changes while entries are stored with it", "4 C09"),
  "C10": ("builtin-map mirror over a catalogue of key types under simulator-controlled seeds and forced hash collisions; hasher contract", "4 C10"),
  "C11": ("same call sequence into a builtin map and two sibling instances that differ in presize, seed stream, hash mode, table knob, prior Clear", "4 C11"),
  "C12": ("twin worlds: Cache vs CacheOf[string,any] and Map vs MapOf[string,any] driven by one generated sequence under one virtual clock", "4 C12"),
- "C13": ("scheduler deadlock detection and livelock proof (all runnable tasks spin without any write) over writers/Clear/resize/re-entrant callbacks", "2.2, 4 C13"),
- "C14": ("Go race detector inside the simulator: baton hand-offs hidden from TSan so only the code's own happens-before edges count; payload checksums", "4 C14"),
+ "C13": ("scheduler deadlock detection, two livelock proofs and a per-call step bound over writers/Clear/resize/re-entrant and re-arming callbacks, also under a running clock", "2.2, 4 C13"),
+ "C14": ("Go race detector inside the simulator: baton hand-offs hidden from TSan so only the code's own happens-before edges count; payload checksums; two containers; drop + GC with ticking janitors", "4 C14"),
  "C15": ("(a) janitor-only cleanup under the virtual clock with tick coalescing; (b) drop + real GC: janitor tasks end, payloads are collected", "4 C15"),
  "C16": ("stall fault: a writer/resizer is frozen indefinitely; readers must return without joining a wait set within a linear bound of own steps", "4 C16"),
 }
